@@ -183,10 +183,13 @@ impl GenerationPass for AvailableValuePass {
                         node.gen_memory_value()
                     {
                         if let Some(curr_stack) = node.reg_values_in().stack_offset() {
-                            map.insert(MemoryLocation::StackOffset(curr_stack + offset), value);
+                            map.insert(
+                                MemoryLocation::StackOffset(curr_stack + offset),
+                                value_as_of_now(value, &node.reg_values_in()),
+                            );
                         }
                     } else if let Some((memory, value)) = node.gen_memory_value() {
-                        map.insert(memory, value);
+                        map.insert(memory, value_as_of_now(value, &node.reg_values_in()));
                     }
                     map
                 };
@@ -210,8 +213,12 @@ impl GenerationPass for AvailableValuePass {
                     &node.memory_values_in(),
                 );
                 rule_perform_math_ops(&node.node(), &mut out_reg_n, &node.reg_values_in());
-                rule_push_value_to_csr_memory(&node.node(), &mut out_memory_n, &out_reg_n);
-                rule_known_values_to_stack(&mut out_memory_n, &node.reg_values_in());
+                rule_push_value_to_csr_memory(
+                    &node.node(),
+                    &mut out_memory_n,
+                    &out_reg_n,
+                    &node.reg_values_in(),
+                );
                 // TODO stack reset?
 
                 // If either of the outs changed, replace the old outs with the new outs
@@ -390,34 +397,35 @@ fn rule_value_from_stack(
 /// If a value on the stack is a reference to some register value (A),
 /// but that register value is either a constant or the guaranteed register
 /// value at the entry of the function (B), then replace A with B.
-fn rule_known_values_to_stack(
-    memory_out: &mut AvailableValueMap<MemoryLocation>,
+/// The value a register holds right now, if it is known.
+///
+/// A memory location that receives "register + scalar" is recorded with the
+/// value the register has at the time of the store. This must only be done
+/// for the store itself: once the register is redefined, the location still
+/// holds the old value.
+fn value_as_of_now(
+    value: AvailableValue,
     available_in: &AvailableValueMap<Register>,
-) {
-    for (pos, val) in memory_out.clone() {
-        if let AvailableValue::RegisterWithScalar(reg, off) = val {
-            if let Some(item) = available_in.get(&reg) {
-                match item {
-                    AvailableValue::Constant(x) => {
-                        memory_out.insert(pos, AvailableValue::Constant(*x + off));
-                    }
-                    AvailableValue::OriginalRegisterWithScalar(reg2, off3) => {
-                        memory_out.insert(
-                            pos,
-                            AvailableValue::OriginalRegisterWithScalar(*reg2, *off3 + off),
-                        );
-                    }
-                    _ => {}
-                }
+) -> AvailableValue {
+    if let AvailableValue::RegisterWithScalar(reg, off) = value {
+        match available_in.get(&reg) {
+            Some(AvailableValue::Constant(x)) => {
+                return AvailableValue::Constant(x.wrapping_add(off));
             }
+            Some(AvailableValue::OriginalRegisterWithScalar(reg2, off3)) => {
+                return AvailableValue::OriginalRegisterWithScalar(*reg2, off3.wrapping_add(off));
+            }
+            _ => {}
         }
     }
+    value
 }
 
 fn rule_push_value_to_csr_memory(
     node: &impl InstructionProperties,
     memory_out: &mut AvailableValueMap<MemoryLocation>,
     available_in: &AvailableValueMap<Register>,
+    values_before: &AvailableValueMap<Register>,
 ) {
     // If the node writes to memory
     if let Some((source, (reg, off))) = node.stores_to_memory() {
@@ -426,7 +434,10 @@ fn rule_push_value_to_csr_memory(
             // Push the value to the memory
             memory_out.insert(
                 MemoryLocation::CsrRegisterValueOffset(*csr, off.value()),
-                AvailableValue::RegisterWithScalar(source, 0),
+                value_as_of_now(
+                    AvailableValue::RegisterWithScalar(source, 0),
+                    values_before,
+                ),
             );
         }
     }
